@@ -64,7 +64,7 @@ def _is_manual_impl(w, name):
     manual impls (ActorRef / ActorWeak) must be interpreted."""
     if name in _manual_cache:
         return _manual_cache[name]
-    m = re.search(r"<impl at (.*?):(\d+):(\d+): (\d+):(\d+)>", name)
+    m = re.search(r"<impl at (.*?):(\d+):(\d+): (\d+):(\d+)>", w.prog.bodies[name].name if name in w.prog.bodies else name)
     r = True
     if m:
         rel = m.group(1)
@@ -119,7 +119,8 @@ def dispatch(w, it, callee, args, frame):
     if cands:
         if len(cands) == 1:
             return crate_call(w, it, cands[0], args, callee)
-        best = [c for c in cands if c.endswith("::".join(parts[-2:]))] or [c for c in cands if c.split("::")[-1] == parts[-1]]
+        nm = lambda c: w.prog.bodies[c].name
+        best = [c for c in cands if nm(c).endswith("::".join(parts[-2:]))] or [c for c in cands if nm(c).split("::")[-1] == parts[-1]]
         if len(best) >= 1:
             return crate_call(w, it, best[0], args, callee)
     # enum/struct constructor used as a function (e.g. `MailboxMessage::StopGracefully(x)`)
@@ -130,8 +131,8 @@ def dispatch(w, it, callee, args, frame):
 
 def crate_call(w, it, name, args, callee):
     b = w.prog.bodies[name]
-    short = name.split("::")[-1]
-    if short == "record" and "dead_letter" in name:
+    short = b.name.split("::")[-1]
+    if short == "record" and "dead_letter" in b.name:
         # observe the dead letter (reason, operation, target) and still run the real body
         reason = args[1].variant if isinstance(args[1], Agg) else str(args[1])
         ident = args[0]
@@ -230,9 +231,23 @@ def call_trait(w, it, selfty, trait, meth, args, callee, frame):
             return it.call_body(w.prog.bodies[name], args)
         raise Unsupported("Default for " + t)
     if key == ("IntoIterator", "into_iter"):
-        return args[0]
+        v = args[0]
+        if isinstance(v, ModelObj) and v.type_name == "Vec":
+            return w.IterV(v.items)
+        if isinstance(v, Ref):
+            inner = deref(it, v)
+            if isinstance(inner, ModelObj) and inner.type_name == "Vec":
+                return w.IterV([Ref(Cell(x, "elem"), (), False) for x in inner.items])
+        if isinstance(v, Agg) and v.kind == "array":
+            return w.IterV(v.fields)
+        return v
     if key == ("Iterator", "next"):
         r = deref1(it, args[0])
+        if isinstance(r, ModelObj) and r.type_name == "Iter":
+            if r.i < len(r.items):
+                r.i += 1
+                return mk_some(r.items[r.i - 1])
+            return mk_none()
         if isinstance(r, Agg) and r.name == "Range":
             a, b = r.fields
             if it.truth(it.binop("Lt", a, b)):
@@ -326,7 +341,35 @@ def pick_impl(w, it, trait, meth, args, rt=None):
 # =====================================================================================
 # scripted actor hooks
 # =====================================================================================
+def concrete_impl(w, it, trait, meth, tyname, args, msgname=None, same_impl_as=None):
+    names = w.prog.impl_all.get((tyname, trait, meth), [])
+    if same_impl_as is not None:
+        tok = re.search(r"\{impl#\d+\}", same_impl_as)
+        names = [n for n in names if tok and tok.group(0) + "-" in n + "-"]
+    if msgname is not None:
+        from .interp import type_head
+        names = [n for n in names if len(w.prog.bodies[n].arg_types) > 1 and type_head(w.prog.bodies[n].arg_types[1]) == msgname]
+    if len(names) == 1:
+        return names[0]
+    return None
+
+
 def actor_hook(w, it, meth, args):
+    if meth == "on_start" and not isinstance(args[0], W.Script):
+        # a concrete user actor (macro corpus): the crate's own impl (e.g. generated by derive(Actor))
+        a0 = args[0]
+        tn = a0.name if isinstance(a0, Agg) else None
+        name = concrete_impl(w, it, "Actor", "on_start", tn, args)
+        if name is None:
+            raise Unsupported("no Actor::on_start impl for %r" % (tn,))
+        return it.call_body(w.prog.bodies[name], args)
+    if meth in ("on_run", "on_stop"):
+        av = deref(it, args[0])
+        if isinstance(av, Agg) and not isinstance(av.extra, W.Script):
+            name = concrete_impl(w, it, "Actor", meth, av.name, args) or w.prog.impl_index.get(("<default>", "Actor", meth))
+            if name is None:
+                raise Unsupported("no Actor::%s for %s" % (meth, av.name))
+            return it.call_body(w.prog.bodies[name], args)
     if meth == "on_start":
         script = args[0]
         if not isinstance(script, W.Script):
@@ -384,6 +427,28 @@ def reply_of(it, idv):
 
 def message_hook(w, it, meth, args):
     if meth == "on_tell_result":
+        refv0 = deref(it, args[1])
+        aid = w.describe(refv0.fields[0].fields[0])
+        disp = getattr(w, "concrete_dispatch", {}).get(aid)
+        if disp is not None:
+            tyname, msgname, hname = disp
+            name = concrete_impl(w, it, "Message", "on_tell_result", tyname, args, same_impl_as=hname) or w.prog.impl_index.get(("<default>", "Message", "on_tell_result"))
+            it.ex.event(ev="on_tell_result_concrete", actor_id=aid, generated=name is not None and "{impl#" in name)
+            return it.call_body(w.prog.bodies[name], args)
+    if meth == "handle":
+        av = deref(it, args[0])
+        if isinstance(av, Agg) and not isinstance(av.extra, W.Script):
+            msg = args[1]
+            name = concrete_impl(w, it, "Message", "handle", av.name, args, msgname=msg.name if isinstance(msg, Agg) else None)
+            if name is None:
+                raise Unsupported("no Message<%s> impl for %s" % (getattr(msg, "name", "?"), av.name))
+            refv0 = deref(it, args[2])
+            if not hasattr(w, "concrete_dispatch"):
+                w.concrete_dispatch = {}
+            w.concrete_dispatch[w.describe(refv0.fields[0].fields[0])] = (av.name, msg.name, name)
+            it.ex.event(ev="concrete_handle", actor=av.name, msg=msg.name)
+            return it.call_body(w.prog.bodies[name], args)
+    if meth == "on_tell_result":
         res = deref(it, args[0])
         refv = deref(it, args[1])
         it.ex.event(ev="on_tell_result", result=w.describe(res), actor_id=w.describe(refv.fields[0].fields[0]))
@@ -402,9 +467,13 @@ def message_hook(w, it, meth, args):
         if cid in script.handler_panics or "*" in script.handler_panics:
             raise RustPanic("scripted panic in handler of " + script.name)
         if kind == "Spawning":
+            # the handler "spawns" a task (played by the scenario's environment) and returns its JoinHandle
             t = W.Task(w, "spawned-by-%s" % script.name, None)
             t.state = "running"
-            w.spawned_by_handlers.append(t) if hasattr(w, "spawned_by_handlers") else None
+            if not hasattr(w, "spawned_by_handlers"):
+                w.spawned_by_handlers = []
+            w.spawned_by_handlers.append(t)
+            it.ex.event(ev="handler_spawned", task=t.id, msg=w.describe(idv))
             return W.JoinHandle(t)
         return reply_of(it, idv)
     return W.HookFuture(w, "handler", script.name, yields, finish, script.handler_actions.get(cid, script.handler_actions.get("*", [])),
@@ -485,7 +554,7 @@ def install(w):
     @reg("std::any::type_name", "any::type_name")
     def type_name(w, it, a, c):
         ta = type_args(c)
-        return ta[0] if ta else "?"
+        return Ref(Cell(ta[0] if ta else "?", "type_name"), (), False)
 
     @reg("std::rt::panic_fmt", "rt::panic_fmt", "core::panicking::panic_fmt", "panicking::panic_fmt", "core::panicking::panic", "panicking::panic",
          "std::rt::begin_panic", "core::panicking::panic_explicit", "panicking::panic_display", "core::panicking::assert_failed", "panicking::assert_failed",
@@ -528,6 +597,34 @@ def install(w):
     @reg("discriminant_value", "intrinsics::discriminant_value")
     def discr(w, it, a, c):
         return it.discriminant(deref(it, a[0]))
+
+    def int_method(opname, mode):
+        def f(w, it, a, c):
+            x, y = a[0], a[1]
+            if mode == "wrapping":
+                return it.binop(opname, x, y)
+            r = it.binop(opname + "WithOverflow", x, y)
+            if mode == "checked":
+                return mk_none() if it.truth(r.fields[1]) else mk_some(r.fields[0])
+            if mode == "overflowing":
+                return r
+            raise Unsupported(mode)
+        return f
+    for _op, _nm in (("Add", "add"), ("Sub", "sub"), ("Mul", "mul")):
+        B["num::wrapping_" + _nm] = int_method(_op, "wrapping")
+        B["num::checked_" + _nm] = int_method(_op, "checked")
+        B["num::overflowing_" + _nm] = int_method(_op, "overflowing")
+
+    @reg("num::saturating_sub")
+    def sat_sub(w, it, a, c):
+        x, y = a
+        if it.truth(it.binop("Lt", x, y)):
+            return IntV(0, x.bits, x.signed)
+        return it.binop("Sub", x, y)
+
+    @reg("String::new")
+    def string_new(w, it, a, c):
+        return ""
 
     @reg("core::num::saturating_add", "num::saturating_add")
     def sat_add(w, it, a, c):
@@ -837,11 +934,9 @@ def install(w):
         # the reply was boxed by handle_message from the handler's own return value; the model
         # keeps runtime values typed by construction, so the downcast succeeds iff the boxed
         # value is what a scripted handler returns (an 8-bit int or a JoinHandle)
-        b = a[0]
-        v = b.cell.value
-        if isinstance(v, IntV) or isinstance(v, W.JoinHandle):
-            return mk_ok(b)
-        return mk_err(b)
+        # runtime values are untyped here: the boxed reply is whatever handle_message boxed, so the
+        # downcast to the handler's own Reply type succeeds (type confusion is outside this engine)
+        return mk_ok(a[0])
 
     # ---------------- atomics
     @reg("Atomic::new", "AtomicU64::new", "AtomicUsize::new", "AtomicBool::new")
@@ -1023,9 +1118,84 @@ def install(w):
         def __init__(self, items=None):
             self.items = items or []
 
-    @reg("Vec::new")
+        def drop(self, it):
+            items, self.items = self.items, []
+            for x in items:
+                it.drop_value(x)
+
+    class IterV(ModelObj):
+        type_name = "Iter"
+
+        def __init__(self, items):
+            self.items, self.i = list(items), 0
+
+    w.IterV = IterV
+    w.VecV = VecV
+
+    @reg("Vec::new", "VecDeque::new", "Vec::with_capacity", "VecDeque::with_capacity")
     def vec_new(w, it, a, c):
         return VecV()
+
+    @reg("Vec::len", "VecDeque::len")
+    def vec_len(w, it, a, c):
+        return IntV(len(deref(it, a[0]).items), 64)
+
+    @reg("Vec::is_empty", "VecDeque::is_empty")
+    def vec_is_empty(w, it, a, c):
+        return len(deref(it, a[0]).items) == 0
+
+    @reg("VecDeque::push_back")
+    def vd_push_back(w, it, a, c):
+        deref(it, a[0]).items.append(a[1])
+        return UNIT
+
+    @reg("VecDeque::push_front")
+    def vd_push_front(w, it, a, c):
+        deref(it, a[0]).items.insert(0, a[1])
+        return UNIT
+
+    @reg("VecDeque::pop_front")
+    def vd_pop_front(w, it, a, c):
+        v = deref(it, a[0])
+        return mk_some(v.items.pop(0)) if v.items else mk_none()
+
+    @reg("Vec::pop", "VecDeque::pop_back")
+    def vec_pop(w, it, a, c):
+        v = deref(it, a[0])
+        return mk_some(v.items.pop()) if v.items else mk_none()
+
+    @reg("Vec::clear", "VecDeque::clear")
+    def vec_clear(w, it, a, c):
+        v = deref(it, a[0])
+        items, v.items = v.items, []
+        for x in items:
+            it.drop_value(x)
+        return UNIT
+
+    @reg("VecDeque::front", "Vec::first")
+    def vd_front(w, it, a, c):
+        v = deref(it, a[0])
+        return mk_some(Ref(Cell(v.items[0], "front"), (), False)) if v.items else mk_none()
+
+    @reg("Vec::iter", "VecDeque::iter", "slice::iter")
+    def vec_iter(w, it, a, c):
+        v = deref(it, a[0])
+        items = v.items if isinstance(v, VecV) else v.fields
+        return IterV([Ref(Cell(x, "elem"), (), False) for x in items])
+
+    @reg("Vec::drain")
+    def vec_drain(w, it, a, c):
+        v = deref(it, a[0])
+        items, v.items = v.items, []
+        return IterV(items)
+
+    @reg("bool::then_some")
+    def bool_then_some(w, it, a, c):
+        return mk_some(a[1]) if it.truth(a[0]) else mk_none()
+
+    @reg("bool::then")
+    def bool_then(w, it, a, c):
+        return mk_some(it.call_closure(a[1], [])) if it.truth(a[0]) else mk_none()
 
     @reg("Vec::push")
     def vec_push(w, it, a, c):
@@ -1163,6 +1333,12 @@ def install(w):
     @reg("SystemTime::checked_add")
     def systime_checked_add(w, it, a, c):
         return mk_some(Agg("struct", "SystemTime", [deref(it, a[0]).fields[0] + a[1].fields[0]]))
+
+    @reg("tracing::__verif_event", "__verif_event")
+    def verif_event(w, it, a, c):
+        lvl = a[0].v if isinstance(a[0], IntV) else a[0]
+        it.ex.event(ev="log", level={1: "warn", 2: "error"}.get(lvl, str(lvl)), task=w.cur_task.name if w.cur_task else None)
+        return UNIT
 
     # ---------------- tracing model
     @reg("Span::none", "tracing::Span::none", "Span::current")
